@@ -246,7 +246,8 @@ def gen_cases(prop, u, seed, tier, probe=None):
             case(i, 0, '-', v, 'big-' + what)
         for nz in (0, 3, (1 << 32) + 1, (1 << 63) - 1, 1 << 63, (1 << 63) + 1, (1 << 64) - 2, (1 << 64) - 1):
             cs.add('zstvec %d' % nz, kind='zstvec', n=nz, family='zero-sized-items-huge-length')
-        for kind_, n in (('u8', 1 << 24), ('u8', (1 << 24) - 1), ('u8', (1 << 24) + 1), ('u64', 1 << 21), ('str', 1 << 24), ('str', (1 << 25) + 3)):
+        for kind_, n in (('u8', 1 << 24), ('u8', (1 << 24) - 1), ('u8', (1 << 24) + 1), ('u64', 1 << 21), ('str', 1 << 24), ('str', (1 << 25) + 3),
+                         ('strvec', (1 << 24) + 5), ('strvec', (1 << 25) + 3), ('strvec', 1 << 24), ('strvec', (1 << 20) + 1)):
             cs.add('bigfile %s n%d %s -' % (kind_, n, 'dfull' if prop == 'C01' else 'deps'), kind='bigfile', loader='dfull', prefix=None, family='payload-16MiB')
         if prop == 'C01':
             # the stored bytes come back through `load_full` from something that is not a regular file: a named pipe fed
@@ -303,9 +304,18 @@ def gen_cases(prop, u, seed, tier, probe=None):
                 case(i, 0, '-', v, 'roundtrip')
                 cs.add('schema %d %s' % (i, v), kind='schema', ti=i, val=v, family='schema')
     elif prop == 'C10':
+        # hash fields replaced by *meaningful* values: the hashes of other registered types (among them the alignment hash of
+        # types without zero-copy parts, which is the digest of the empty input)
+        hashes = [a.split(' ') for a in probe(['hash %d' % i for i in range(len(u.types))])]
+        ths = [int(h[1]) for h in hashes if len(h) == 3 and h[0] == 'hash']
+        ahs = sorted(set(int(h[2]) for h in hashes if len(h) == 3 and h[0] == 'hash'))
         for i, t in enumerate(u.types):
             vals = values_for(t, rng, 2)
             v = vals[-1]
+            for ah in rng.sample(ahs, min(len(ahs), 4 if quick else 12)) + ahs[:1] + [0x2d06800538d394c2]:
+                case(i, 0, 'setw:21:8:%d' % ah, v, 'hdr-align-hash-of-another-type')
+            for th in rng.sample(ths, min(len(ths), 2 if quick else 8)):
+                case(i, 0, 'setw:13:8:%d' % th, v, 'hdr-type-hash-of-another-type')
             case(i, 0, '-', v, 'baseline')
             bits = range(HEADER_FIXED * 8) if (not quick or i % 4 == 0) else sorted(rng.sample(range(HEADER_FIXED * 8), 48))
             for k in bits:
@@ -421,6 +431,11 @@ def gen_cases(prop, u, seed, tier, probe=None):
                 continue
             for v in values_for(t, rng, 5 if quick else 12, budget=3):
                 plan.append((i, v))
+        # the written tags map back through a reader too: one byte per call, `Interrupted` on every other call (so that
+        # tag reads are interrupted), fragments of 3 bytes
+        for (i, v) in plan[::(3 if quick else 1)]:
+            for pat in ('onei', 'p3i', 'mixi', 'one'):
+                cs.add('rchunk %d %s - %s' % (i, pat, v), kind='rchunk', ti=i, val=v, k=None, family='tags-through-interrupted-reader')
         answers = probe(['schema %d %s' % (i, v) for i, v in plan])
         enum_arity = {d.name: len(d.variants) for d in u.defs if d.is_enum}
         for (i, v), a in zip(plan, answers):
@@ -604,6 +619,10 @@ def gen_cases(prop, u, seed, tier, probe=None):
                     if l in ('full', 'mem'): fl = [0]
                     for f in fl:
                         cs.add('load %d %s %d %s' % (i, l, f, v), kind='load', ti=i, val=v, loader=l, flags=f, family='load-' + l)
+        # the region belongs to the result for as long as the result lives: a structure whose destructor reads its borrowed data
+        for l in ['full', 'mem', 'mmap', 'map']:
+            for n in [0, 1, 7, 1000, 40000] + ([] if quick else [1 << 20]):
+                cs.add('dropcheck %s %d' % (l, n), kind='dropcheck', loader=l, n=n, family='drop-order')
         # `load_full` of a path that is not a regular file: a named pipe fed in fragments by another thread (metadata length zero)
         for i, t in enumerate(u.types):
             if i % (4 if quick else 1): continue
@@ -697,6 +716,11 @@ def gen_cases(prop, u, seed, tier, probe=None):
             cs.add('wfail %d devfull %s' % (i, v), kind='wfail', ti=i, val=v, k=0, total=n, ff=False, devfull=True, family='dev-full')
             if i % 3 == 0:
                 cs.add('wfail %d storefull %s' % (i, v), kind='wfail', ti=i, val=v, k=0, total=n, ff=False, devfull=True, family='store-dev-full-stderr-full')
+        # payloads of a gigabyte and more (never touched: zero pages) to a counting sink: no failure, a transient refusal of
+        # the first large write, a permanent refusal in the header, in the first and beyond the first gigabyte
+        for n in (1 << 20, (1 << 30) + (1 << 21), (1 << 31) + 5) + (() if quick else ((1 << 32) + 1, (1 << 30) - 1, 1 << 30)):
+            for sink in ('none', 'once', 'perm40', 'perm%d' % (1 << 19), 'perm%d' % ((1 << 30) + 100), 'perm%d' % (n + 63), 'perm%d' % (n + 64)):
+                cs.add('bigser %d %s' % (n, sink), kind='bigser', n=n, sink=sink, family='gigabyte-payload-' + sink.rstrip('0123456789'))
         for k_, t in enumerate(u.slice_elems):
             vt = Seq('vec', t)
             for v in ['[]'] + values_for(vt, rng, 3 if quick else 8):
@@ -707,6 +731,11 @@ def gen_cases(prop, u, seed, tier, probe=None):
                     for k in [0, 29, 45, 56, 60, 70, 90, 150]:
                         cs.add('iterretry %d k=%d %s' % (k_, k, v), kind='iterretry', sk=k_, val=v, k=k, family='iter-retry-after-failure')
     elif prop == 'C14':
+        # one bulk read of more than 16 MiB in the middle of a stream (a string followed by aligned data), from memory and
+        # through the buffered file reader
+        for n in ((1 << 24) + 5, (1 << 25) + 3, 1 << 24, (1 << 24) - 3):
+            for l in ('dfull', 'full'):
+                cs.add('bigfile strvec n%d %s -' % (n, l), kind='bigfile', loader=l, prefix=None, family='bulk-read-above-16MiB')
         plan = []
         for i, t in enumerate(u.types):
             for v in values_for(t, rng, 2 if quick else 6):
@@ -824,6 +853,16 @@ def gen_cases(prop, u, seed, tier, probe=None):
         for a in ['16', '64']:
             for h in huge:
                 cs.add('cursor %s %s' % (a, h), kind='cursor', family='huge-positions', val=h)
+        # writes that would end above isize::MAX (positions from 2^63 on, reachable through set_position / seek): both cursors
+        # panic with "capacity overflow" before anything is updated; the history stops there and the states are compared
+        # (positions just below 2^63 are left out: there the allocation is attempted and its failure aborts the process)
+        for a in ['16', '32', '64', '16c100']:
+            for pos in (M63, M63 + 12345, U64MAX - 64, M63 + (1 << 40)):
+                for first in ('w:0102030405', 'w:' + rb(37), ''):
+                    for wr in ('w:07', 'w:', 'wa:0809', 'wa:', 'wv', 'wv:01|02', 'w:' + rb(33)):
+                        for mv in ('p:%d' % pos, 'ss:%d' % pos):
+                            ops = ';'.join(x for x in (first, mv, wr, 'se:0', 'r:1', 'p:0', 'ra') if x)
+                            cs.add('cursor %s %s' % (a, ops), kind='cursor', family='write-beyond-isize-max', val=ops)
         # the cases the property singles out
         for a in ['16', '32', '64']:
             cs.add('cursor %s p:100;w:0102' % a, kind='cursor', family='gap', val='gap')
